@@ -72,7 +72,7 @@ def build(prog, ptable):
         except NotImplementedError:
             outcomes.append({"err": "OtherError"})
         except Exception as e:  # noqa: BLE001
-            outcomes.append({"err": type(e).__name__})
+            outcomes.append({"err": cg.err_name_for(op, e)})
     return pool, outcomes, params
 
 
